@@ -656,6 +656,23 @@ func (e *Env) callExpr(n *ECall) Val {
 				}
 			}
 			return e.fail("store(ctx): receiver has no storeService/storeKey field")
+		case "vget", "vhas":
+			v := argv(0)
+			if v.S != "View" {
+				return e.fail("%s: first argument must be a KVStore", id.Name)
+			}
+			kv := "(select (w_kv " + e.world(v) + ") (v_svc " + v.T + "))"
+			k := "(str.++ (v_pre " + v.T + ") " + str(1) + ")"
+			if id.Name == "vhas" {
+				return boolVal(kvHas(kv, k))
+			}
+			return strVal(kvGet(kv, k))
+		case "selfRevision":
+			// revision number the chain derives from its chain id (real function, deterministic)
+			if fn := fc.W.Funcs["modules/core/02-client/types.ParseChainID"]; fn != nil {
+				return e.goCallVals(fn, []Val{strVal("(env_chainid (c_env " + argv(0).T + "))")})
+			}
+			return e.fail("ParseChainID not found")
 		case "nth":
 			v := argv(0)
 			k, err := strconv.Atoi(n.Args[1].String())
@@ -833,7 +850,6 @@ func derefType(t types.Type) types.Type {
 
 // goCall evaluates a (pure) Go function of the repository inside a contract by symbolic execution.
 func (e *Env) goCall(fn *ssa.Function, recv *Val, argExprs []Expr) Val {
-	fc := e.fc
 	var args []Val
 	if recv != nil {
 		args = append(args, *recv)
@@ -850,6 +866,11 @@ func (e *Env) goCall(fn *ssa.Function, recv *Val, argExprs []Expr) Val {
 		}
 		args = append(args, v)
 	}
+	return e.goCallVals(fn, args)
+}
+
+func (e *Env) goCallVals(fn *ssa.Function, args []Val) Val {
+	fc := e.fc
 	np, ns := len(fc.panicSites), len(fc.safetySites)
 	fc.inSpec++
 	defer func() { fc.inSpec-- }()
